@@ -6,6 +6,7 @@ import (
 	"fmt"
 	"os"
 	"path"
+	"strings"
 
 	"github.com/fatih/color"
 
@@ -45,6 +46,15 @@ func translate(pkgPatterns []string, outRootDir string, modDir string,
 	}
 
 	someError := false
+	// two packages whose paths differ only in '.', '-' and '_' have the same
+	// output file: neither translation may silently replace the other
+	owners := make(map[string][]string)
+	for _, f := range fs {
+		if f.PkgPath != "" {
+			outFile := coq.ImportToPath(f.PkgPath, f.GoPackage)
+			owners[outFile] = append(owners[outFile], f.PkgPath)
+		}
+	}
 	for i, f := range fs {
 		err := errs[i]
 		if err != nil {
@@ -55,6 +65,12 @@ func translate(pkgPatterns []string, outRootDir string, modDir string,
 			if !ignoreErrors || f.PkgPath == "" {
 				continue
 			}
+		}
+		if pkgs := owners[coq.ImportToPath(f.PkgPath, f.GoPackage)]; len(pkgs) > 1 {
+			fmt.Fprintln(os.Stderr, red(fmt.Sprintf("%s: packages %s are all translated to %s",
+				f.PkgPath, strings.Join(pkgs, ", "), coq.ImportToPath(f.PkgPath, f.GoPackage))))
+			someError = true
+			continue
 		}
 		outFile := path.Join(outRootDir,
 			coq.ImportToPath(f.PkgPath, f.GoPackage))
